@@ -251,7 +251,7 @@ func runC16(c *Ctx) error {
 			}
 		}
 	}
-	np, nperm := 25, 12
+	np, nperm := 80, 12
 	if c.Thorough() {
 		np, nperm = 1500, 60
 	}
